@@ -38,6 +38,10 @@ type c13Case struct {
 	// Hints: the target sends this many 103 Early Hints responses before its final one; a request
 	// with "Expect: 100-continue" additionally gets a 100 Continue from the target.
 	Hints int `json:"early_hints,omitempty"`
+	// SlowDown / SlowUp: the response (request) body takes 40 virtual seconds to send - longer than
+	// the 30s target timeout, which bounds the wait for the response *headers* only
+	SlowDown bool `json:"slow_response_body,omitempty"`
+	SlowUp   bool `json:"slow_request_body,omitempty"`
 }
 
 type c13Scenario struct {
@@ -191,6 +195,12 @@ func c13Gen(rng *rand.Rand, idx, ncases int) c13Scenario {
 		if rng.IntN(5) == 0 {
 			c.Hints = 1 + rng.IntN(2)
 		}
+		if rng.IntN(8) == 0 {
+			c.SlowDown = c.RBody >= 3
+		}
+		if rng.IntN(8) == 0 {
+			c.SlowUp = c.Body >= 3
+		}
 		if c.Body > 0 && rng.IntN(5) == 0 {
 			c.Hdr = append(c.Hdr, [2]string{"Expect", "100-continue"})
 		}
@@ -316,7 +326,13 @@ func (e *c13Echo) serve(ft *FakeTarget, c net.Conn) {
 		for i := 0; i < cs.Hints; i++ {
 			fmt.Fprintf(c, "HTTP/1.1 103 Early Hints\r\nLink: </style-%d.css>; rel=preload\r\n\r\n", i)
 		}
-		if err := writeRaw(c, sent.Line, wire, body, chunks); err != nil {
+		if cs.SlowDown && !noBody {
+			var msg bytes.Buffer
+			writeRaw(&msg, sent.Line, wire, body, chunks)
+			if err := writeTrickled(c, msg.Bytes(), 20*time.Second, ft.w.sleep); err != nil {
+				return
+			}
+		} else if err := writeRaw(c, sent.Line, wire, body, chunks); err != nil {
 			return
 		}
 		if cs.RFrame == "close" && !noBody {
@@ -371,7 +387,11 @@ func c13Run(t *testing.T, run *Run, sc c13Scenario) {
 			run.Inconclusive("connect: %v", err)
 			return
 		}
-		go conn.Write(raw.Bytes())
+		if cs.SlowUp {
+			go writeTrickled(conn, raw.Bytes(), 20*time.Second, w.sleep)
+		} else {
+			go conn.Write(raw.Bytes())
+		}
 		resp, rerr := readRawResponse(bufio.NewReader(conn), cs.Method)
 		conn.Close()
 		fail := func(sig, format string, a ...any) {
